@@ -20,7 +20,9 @@ BindOK(e) ==
   /\ (e.err = "" => r.ok)
   /\ (r.ok => e.err = "" \/ e.inferRefused)
   /\ \A i \in 1..Len(e.targets) :
-       /\ e.after[i].name = r.targets[i].name
+       \* (when an inferring target refuses a compatible block, the targets after it have not been visited yet)
+       /\ IF r.ok /\ e.err # "" THEN e.after[i].name \in {r.targets[i].name, e.targets[i].name}
+                                ELSE e.after[i].name = r.targets[i].name
        \* no target ever holds another column's data: it holds its own column's data, or what it held before, or nothing
        /\ e.after[i].data \in {r.targets[i].data, e.targets[i].data, "empty"}
        /\ (r.ok /\ e.err = "" => e.after[i].data = r.targets[i].data)
